@@ -13,7 +13,7 @@ different from the image of every double (±∞, never produced by the lists of 
 equality is lawful (`missing = missing`: the same cell), the order is linear and the arithmetic is a ring, so the
 checkers run at `Rat` ARE an instance the theorems are about (`Props/C08.lean`, section `executed`).
 The coding of `missing` is meaningful for cell identity only; the driver therefore uses the `Rat` verdict for a step
-only when `keysPresent` holds: no missing cell in any field the step reads with `==`, `<` or `+` (the statement's
+only when `keysPresent` holds: no missing and no infinite cell in any field the step reads with `==`, `<` or `+` (the statement's
 "matching", "best-scoring", "numbers").  Steps with a missing key are judged by the missing-value-aware `Float`
 checkers (`stepClausesM`), which no theorem covers.  Mathlib-free. -/
 namespace CryoCat.C08
@@ -52,9 +52,18 @@ def checkRunQ (steps : List (Op Cell × Obs Cell)) (l : Motl Cell) : Bool := che
 
 /-! ### the guard: no missing cell in a key role -/
 
-def colPresent (f : Field) (l : Motl Cell) : Bool := l.all (fun p => !(p.get f == missingQ))
+/-- the codes of `+∞` / `-∞` (`decodeBits`): like `missingQ` not dyadic, so not the image of a finite double -/
+def posInfQ : Cell := (1 : Rat) / 5
+def negInfQ : Cell := -((1 : Rat) / 5)
+
+/-- the cell is a NUMBER: neither missing nor infinite.  An infinite key is ordered and compared by IEEE rules the
+coding `±1/5` does not follow (`+∞` is the largest score, `1/5` is not), so such a step is left to the `Float`
+checkers exactly like a step with a missing key. -/
+def isNumber (v : Cell) : Bool := !(v == missingQ) && !(v == posInfQ) && !(v == negInfQ)
+
+def colPresent (f : Field) (l : Motl Cell) : Bool := l.all (fun p => isNumber (p.get f))
 def colsPresent (fs : List Field) (ls : List (Motl Cell)) : Bool := ls.all (fun l => fs.all (fun f => colPresent f l))
-def valsPresent (vs : List Cell) : Bool := vs.all (fun v => !(v == missingQ))
+def valsPresent (vs : List Cell) : Bool := vs.all isNumber
 
 /-- the fields an operation reads with `==` / `<` / `+`, the scalar arguments it compares, and every table
 those fields are read from (current table, observed output, parts, operand lists, offset certificates) -/
